@@ -338,7 +338,7 @@ def extract_inputs(trace, root=None):
         lhs = st.get('lhs', '')
         if st.get('sourceLocation', {}).get('function') not in ('main', None) and not lhs.startswith('__CPROVER_rounding_mode'):
             continue
-        m = re.match(r'^(a\d+(_obj)?|self_obj|rm_in|init|idx_in|len_in|n_in)(\W.*)?$', lhs)
+        m = re.match(r'^(a\d+(_obj)?|self_obj|rm_in|init|idx_in|len_in|n_in|mis_in)(\W.*)?$', lhs)
         if m:
             vals.setdefault(m.group(1), {})[lhs] = _val(st.get('value'))
     return vals
